@@ -4,19 +4,21 @@
 
    Vocabulary (Proofs/C10_Form.v, Proofs/C10.v):
      numform num      num = [+|-] digits [.] digits+   (Unicode decimal digits)
-     form P t         t = num ++ pre ++ unit ++ nl, pre empty or in P, unit in {b, bit, B},
-                      nl empty or one newline (Python's `$`)
+     form P t         t = num ++ pre ++ unit, pre empty or in P, unit in {b, bit, B} (nothing after
+                      the unit: the patterns end in \Z, which the translator turns into the flag of
+                      rz_match, Model/C10_Regex.v)
      spec_systems     IEC -> K M G T P E Z Y R Q each with optional i;  SI -> k M G ... Q;
                       mixed -> k K M ... Q each with optional i
      spec_exp p       1 for k/K, 2 M, 3 G, 4 T, 5 P, 6 E, 7 Z, 8 Y, 9 R, 10 Q
      spec_base u p    1024 for IEC, 1000 for SI, mixed: 1024 when p ends in i, else 1000
      spec_eval        float(num) [/ 8 for b, bit] [* float(base ^ exp)], then ceil when return_int
+                      (OverflowError of ceil(inf) turned into ValueError)
    unit_system_info, unit_prefix_exponent, the three regexes and size_re are REGENERATED from
    /repo (Gen/C10_Units.v); the theorems hold for whatever was generated. *)
 From Coq Require Import String.
 From Coq Require Import ZArith SpecFloat.
 Require Import OV.Base.Bytes OV.Base.Py OV.Base.PyInt OV.Base.Str OV.Base.Regex OV.Base.PyFloat.
-Require Import OV.Gen.C10_Units OV.Model.C10.
+Require Import OV.Model.C10_Regex OV.Gen.C10_Units OV.Model.C10.
 Require Import OV.Gen.C10_Code.
 Require Import OV.Proofs.C10_Regex OV.Proofs.C10_Form OV.Proofs.C10_Float OV.Proofs.C10 OV.Proofs.C10_Qemu OV.Proofs.C10_Equiv OV.Proofs.C10_Examples.
 Open Scope Z_scope.
@@ -27,10 +29,10 @@ Theorem C10_system_known_iff : forall u : str,
 Proof. exact system_known_iff. Qed.
 Print Assumptions C10_system_known_iff.
 
-(* the regex of unit system u matches t  <->  t = [sign]number[prefix in P_u]unit[\n] *)
+(* the regex of unit system u matches t  <->  t = [sign]number[prefix in P_u]unit *)
 Theorem C10_admitted_iff_form : forall u prefixes base rx,
   In (u, prefixes) spec_systems -> lookup u unit_system_info = Some (base, rx) ->
-  forall t, re_matchb rx t = true <-> form prefixes t.
+  forall t, rz_matchb rx t = true <-> form prefixes t.
 Proof. exact admitted_iff_form. Qed.
 Print Assumptions C10_admitted_iff_form.
 
@@ -38,7 +40,7 @@ Print Assumptions C10_admitted_iff_form.
    exponent, the base in effect is the specified one, and base^exponent converts to a finite float *)
 Theorem C10_prefix_table_total : forall u base rx t e g p,
   lookup u unit_system_info = Some (base, rx) ->
-  re_match rx t = Some (e, g) -> group_text t g 2 = Some p -> p <> [] ->
+  rz_match rx t = Some (e, g) -> group_text t g 2 = Some p -> p <> [] ->
   lookup p unit_prefix_exponent = Some (spec_exp p) /\
   effective_base u base (Some p) = Some (spec_base u p) /\
   exists x, float_of_Z (spec_base u p ^ spec_exp p) = Some x /\ f_is_finite x = true.
@@ -53,40 +55,37 @@ Theorem C10_not_admitted_raises_ValueError : forall t u ri,
 Proof. exact not_admitted_raises_ValueError. Qed.
 Print Assumptions C10_not_admitted_raises_ValueError.
 
-(* no exception other than ValueError, for every text, unit system and return_int — except
-   OverflowError under return_int when the float result is infinite (finding K14) *)
+(* no exception other than ValueError: for every text, every unit-system string and both return_int
+   (non-str arguments are outside the statement).  A quantity beyond binary64 evaluates to inf without
+   return_int — the IEEE evaluation, no exception — and to ValueError with it (Proofs/C10.v,
+   overflow_witness_float / overflow_witness_int) *)
 Theorem C10_only_ValueError : forall t u ri e,
-  string_to_bytes t u ri = Exn e ->
-  e = ValueError \/ (e = OverflowError /\ ri = true /\ overflow_zone t u = true).
-Proof. exact only_ValueError_or_overflow. Qed.
+  string_to_bytes t u ri = Exn e -> e = ValueError.
+Proof. exact only_ValueError. Qed.
 Print Assumptions C10_only_ValueError.
-
-(* the statement without the zone is false for the code as it is *)
-Theorem C10_only_ValueError_refuted : ~ only_ValueError_full_statement.
-Proof. exact only_ValueError_refuted. Qed.
-Print Assumptions C10_only_ValueError_refuted.
 
 (* the value of an admitted text is the IEEE evaluation  float(number) [/ 8] [* float(base^exp)] *)
 Theorem C10_value_is_ieee_evaluation : forall u prefixes, In (u, prefixes) spec_systems ->
-  forall num pre un nl ri,
-  numform num -> (pre = [] \/ In pre prefixes) -> In un units3 -> (nl = [] \/ nl = [10%N]) ->
-  string_to_bytes (num ++ pre ++ un ++ nl) u ri = spec_eval u num pre un ri.
+  forall num pre un ri,
+  numform num -> (pre = [] \/ In pre prefixes) -> In un units3 ->
+  string_to_bytes (num ++ pre ++ un) u ri = spec_eval u num pre un ri.
 Proof. exact string_to_bytes_eval. Qed.
 Print Assumptions C10_value_is_ieee_evaluation.
 
 (* ... and it is a float (never an exception) when return_int is off *)
 Theorem C10_admitted_returns_float : forall u prefixes, In (u, prefixes) spec_systems ->
-  forall num pre un nl,
-  numform num -> (pre = [] \/ In pre prefixes) -> In un units3 -> (nl = [] \/ nl = [10%N]) ->
-  exists r, string_to_bytes (num ++ pre ++ un ++ nl) u false = Ok (NFloat r).
+  forall num pre un,
+  numform num -> (pre = [] \/ In pre prefixes) -> In un units3 ->
+  exists r, string_to_bytes (num ++ pre ++ un) u false = Ok (NFloat r).
 Proof. exact admitted_returns_float. Qed.
 Print Assumptions C10_admitted_returns_float.
 
-(* return_int yields the ceiling of the float result: same call, then math.ceil ... *)
+(* return_int yields the ceiling of the float result: same call, then math.ceil (ValueError when the
+   float is infinite or NaN) ... *)
 Theorem C10_ceil_spec : forall t u,
   string_to_bytes t u true =
   match string_to_bytes t u false with
-  | Ok (NFloat r) => (do z <- ceil_to_Z r; Ok (NInt z))
+  | Ok (NFloat r) => ceil_or_ValueError r
   | other => other
   end.
 Proof. exact return_int_is_ceil. Qed.
@@ -105,11 +104,11 @@ Print Assumptions C10_ceil_is_ceiling.
    value a (with the sign), and return_int returns exactly a.
    exact_hyps (Proofs/C10.v) is the conjunction of: (u, prefixes) a known system; sg empty, + or -;
    ds non-empty ASCII digits of value n; pre empty or a prefix of the system; un in {b, bit, B};
-   nl empty or a newline; F = 1 or spec_base^spec_exp; repr53b F; n * F = a * (8 | 1); a < 2^53. *)
-Theorem C10_exact_when_representable : forall u prefixes sg ds pre un nl n F a,
-  exact_hyps u prefixes sg ds pre un nl n F a ->
-  string_to_bytes (sg ++ ds ++ pre ++ un ++ nl) u false = Ok (NFloat (float_of_small_int (beq sg [45%N]) a)) /\
-  string_to_bytes (sg ++ ds ++ pre ++ un ++ nl) u true = Ok (NInt (if beq sg [45%N] then Zneg a else Zpos a)).
+   F = 1 or spec_base^spec_exp; repr53b F; n * F = a * (8 | 1); a < 2^53. *)
+Theorem C10_exact_when_representable : forall u prefixes sg ds pre un n F a,
+  exact_hyps u prefixes sg ds pre un n F a ->
+  string_to_bytes (sg ++ ds ++ pre ++ un) u false = Ok (NFloat (float_of_small_int (beq sg [45%N]) a)) /\
+  string_to_bytes (sg ++ ds ++ pre ++ un) u true = Ok (NInt (if beq sg [45%N] then Zneg a else Zpos a)).
 Proof. exact exact_when_representable. Qed.
 Print Assumptions C10_exact_when_representable.
 
